@@ -228,6 +228,12 @@ func (e *Exec) concretizeBlobs(m map[string]string) {
 			assign(f.abs, fmt.Sprintf("%d", f.uval))
 			continue
 		}
+		if f.isJSON && f.n > 64 && !(f.first == '{' && f.last == '}') {
+			// a long value the path treats as valid JSON: a string literal of exactly that length
+			b := []byte(synthBlob(f.n, '"', '"', len(assigned), used))
+			assign(f.abs, string(b))
+			continue
+		}
 		if f.n > 64 || (f.first == '{' && f.last == '}' && f.n >= 2) {
 			assign(f.abs, synthBlob(f.n, f.first, f.last, len(assigned), used))
 			continue
